@@ -217,11 +217,11 @@ pub enum X {
     ScFinished,
     HookStarted(Hk),
     HookPassed(Hk),
-    HookFailed { hk: Hk, token: String, has_world: bool },
+    HookFailed { hk: Hk, token: String },
     StepStarted { text: String, bg: bool },
     StepPassed { text: String, bg: bool },
     StepSkipped { text: String, bg: bool },
-    StepFailed { text: String, bg: bool, err: ErrK, token: Option<String>, has_world: bool, has_captures: bool },
+    StepFailed { text: String, bg: bool, err: ErrK, token: Option<String> },
 }
 
 pub fn project(e: &Ev) -> X {
@@ -231,19 +231,15 @@ pub fn project(e: &Ev) -> X {
         K::ScFinished => X::ScFinished,
         K::HookStarted(h) => X::HookStarted(*h),
         K::HookPassed(h) => X::HookPassed(*h),
-        K::HookFailed(h, p, w) => {
-            X::HookFailed { hk: *h, token: token_of(p).unwrap_or_else(|| format!("?{p}")), has_world: w.is_some() }
-        }
+        K::HookFailed(h, p, _) => X::HookFailed { hk: *h, token: token_of(p).unwrap_or_else(|| format!("?{p}")) },
         K::StepStarted { bg } => X::StepStarted { text: text(), bg: *bg },
         K::StepPassed { bg } => X::StepPassed { text: text(), bg: *bg },
         K::StepSkipped { bg } => X::StepSkipped { text: text(), bg: *bg },
-        K::StepFailed { bg, err, payload, world, has_captures, .. } => X::StepFailed {
+        K::StepFailed { bg, err, payload, .. } => X::StepFailed {
             text: text(),
             bg: *bg,
             err: err.clone(),
             token: if matches!(err, ErrK::Panic) { Some(token_of(payload).unwrap_or_else(|| format!("?{payload}"))) } else { None },
-            has_world: world.is_some(),
-            has_captures: *has_captures,
         },
         other => panic!("harness: project() on non-scenario event {other:?}"),
     }
@@ -321,13 +317,13 @@ pub fn expect_attempt(
         world_new_called = true;
         if let Some((t, o)) = take(CbKind::WorldNew, crate::plan::SITE_WORLD) {
             finished_arg = format!("BeforeHookFailed({})", payload_text(&t, o, "failed to initialize World: "));
-            deferred = Some(X::HookFailed { hk: Hk::Before, token: t, has_world: false });
+            deferred = Some(X::HookFailed { hk: Hk::Before, token: t });
         } else {
             world = true;
             callbacks.push(site_before(&sc.name));
             if let Some((t, o)) = take(CbKind::Before, &site_before(&sc.name)) {
                 finished_arg = format!("BeforeHookFailed({})", payload_text(&t, o, ""));
-                deferred = Some(X::HookFailed { hk: Hk::Before, token: t, has_world: true });
+                deferred = Some(X::HookFailed { hk: Hk::Before, token: t });
             } else {
                 seq.push(X::HookPassed(Hk::Before));
             }
@@ -350,8 +346,6 @@ pub fn expect_attempt(
                         bg: *bg,
                         err: ErrK::Ambiguous(2),
                         token: None,
-                        has_world: world,
-                        has_captures: false,
                     });
                     break;
                 }
@@ -366,8 +360,6 @@ pub fn expect_attempt(
                                 bg: *bg,
                                 err: ErrK::Panic,
                                 token: Some(t),
-                                has_world: false,
-                                has_captures: false,
                             });
                             break;
                         }
@@ -381,8 +373,6 @@ pub fn expect_attempt(
                             bg: *bg,
                             err: ErrK::Panic,
                             token: Some(t),
-                            has_world: true,
-                            has_captures: true,
                         });
                         break;
                     }
@@ -399,7 +389,7 @@ pub fn expect_attempt(
         seq.push(X::HookStarted(Hk::After));
         callbacks.push(site_after(&sc.name));
         if let Some((t, _)) = take(CbKind::After, &site_after(&sc.name)) {
-            seq.push(X::HookFailed { hk: Hk::After, token: t, has_world: world });
+            seq.push(X::HookFailed { hk: Hk::After, token: t });
             failed = true;
         } else {
             seq.push(X::HookPassed(Hk::After));
